@@ -3,7 +3,7 @@
 (* Trace specification for C28 (engine E2).  Events recorded from the real *)
 (* code (kernel in-package harness, real Node and BadgerStore):            *)
 (*  {"ev":"Reset","last":{tx,ts}}          fresh node: only the genesis op *)
-(*  {"ev":"write","o":{cls,n,ref,tsk,rep},"res":r,"last":{tx,ts}}          *)
+(*  {"ev":"write","o":{cls,n,ref,tsk,rep},"kres":r,"res":r,"last":{tx,ts}} *)
 (*        one operation offered to store.WriteConsensusSnapshot and the    *)
 (*        last recorded operation read back (ReadLastConsensusSnapshot)    *)
 (*  {"ev":"refs","cls","ref","tsk","rep","res"}                            *)
@@ -36,6 +36,11 @@ Reset == IsEvent("Reset") /\ Ev.last = Last(GenesisChain) /\ chain' = GenesisCha
 
 Write ==
     /\ IsEvent("write")
+    \* kres: outcome of the kernel rule on the very snapshot that is then offered to the store.
+    \* Kernel acceptance of a consensus-class operation implies the rule (reference to the head, strictly
+    \* later) and the store must then record it without aborting.
+    /\ (Ev.kres = "ok" /\ Ev.o.cls \in ConsClass) => (RefCond(Ev.o.ref, Ev.o.tsk, Ev.o.rep) /\ Okd)
+    /\ (Full /\ Ev.o.n = 1) => ((Ev.kres = "ok") = ValidateRefOK(Ev.o.cls, Ev.o.ref, Ev.o.tsk, Ev.o.rep))
     /\ LET o == Ev.o  obs == Ev.last  appended == obs # Last(chain) IN
         IF Full
         THEN /\ Okd = WriteOK(o)
